@@ -1262,12 +1262,13 @@ Qed.
 (* F6 / F6b: the utility as it was in the snapshot fails on None placeholders (witness trees are the explicit
    trees of  start: [A] b / b: A? "c"  on "ac"  and of  start: q A / ?q: [A] | b / b: B*  on "a") *)
 Definition f6_tree : tree :=
-  Nd "start" [Nn; Nd AMBIG [Nd "b" [Tk "A" "a"; Tk "C" "c"]]].
+  Nd AMBIG [Nd "start" [Tk "A" "a"; Nd "b" []]; Nd "start" [Nn; Nd "b" [Tk "A" "a"]]].
 Definition f6b_tree : tree :=
   Nd "start" [Nd AMBIG [Nd "b" []; Nn]; Tk "A" "a"].
 
 Theorem collapse_none_refuted :
-  collapse_old false false f6_tree = AssertFail /\ expand f6_tree = [Nd "start" [Nn; Nd "b" [Tk "A" "a"; Tk "C" "c"]]]
+  collapse_old false false f6_tree = AssertFail
+  /\ expand f6_tree = [Nd "start" [Tk "A" "a"; Nd "b" []]; Nd "start" [Nn; Nd "b" [Tk "A" "a"]]]
   /\ collapse_old true false f6b_tree = AssertFail
   /\ expand f6b_tree = [Nd "start" [Nd "b" []; Tk "A" "a"]; Nd "start" [Nn; Tk "A" "a"]]
   /\ collapse f6_tree = Ok (expand f6_tree) /\ collapse f6b_tree = Ok (expand f6b_tree).
